@@ -1,7 +1,7 @@
-// harness c10_window_cache_key_is_injective (property C10) failed in the solver on 0aba19359eb3947b7662b91f49c90c18c30ac4f9
-// failed checks: [{"description": "assertion failed: a == b", "function": "lpc::verif_kani::c10_window_cache_key_is_injective", "file": "lpc.rs", "line": "122"}]
+// harness c10_window_cache_key_is_injective (property C10) failed in the solver on d7f8bd75a260d6abe84e4f0363e17873c460cbdc+dirty
+// failed checks: [{"description": "attempt to add with overflow", "function": "lpc::fingerprint_window", "file": "lpc.rs", "line": "137"}, {"description": "assertion failed: a == b", "function": "lpc::verif_kani::c10_window_cache_key_is_injective", "file": "lpc.rs", "line": "96"}]
 // the harness uses code stubs, so the violation is confirmed by the native property-level oracle
 // test `c10_oracle_window_cache_history` in /verif/harness/native/lpc.rs (fails = reproduced): True
 //@replay-harness: c10_window_cache_key_is_injective
 //@replay-oracle: c10_oracle_window_cache_history
-// panicked at /var/tmp/flacenc-verif-c10-zamtne1h/shadow/verif_harness/native/lpc.rs:47:5: | stream bytes depend on the previously used window: [(0.6, 0.60001004), (0.63, 0.63001)]
+// panicked at /var/tmp/flacenc-verif-c10-o8w_dsnf/shadow/verif_harness/native/lpc.rs:47:5: | stream bytes depend on the previously used window: [(0.45, 0.45001), (0.48000002, 0.48001003), (0.51, 0.51001), (0.54, 0.54001004), (0.57, 0.57001), (0.6, 0.60001004), (0.63, 0.63001)]
